@@ -476,7 +476,11 @@ bool Instance::configure_tx_txin() {
             sigver = SigVersion::WITNESS_V0;
             break;
         case OP_1:
-            // taproot/tapscript
+            // taproot/tapscript -- native only: BIP341 does not apply to a P2SH-wrapped version 1 program (an unknown witness program)
+            if (scriptSig.size() > 0) {
+                fprintf(stderr, "%s is a P2SH-wrapped witness version 1 program: not taproot, not supported\n", source.c_str());
+                return false;
+            }
             witprogver = 1;
             // sigver is determined at a later stage for V1
             break;
